@@ -196,7 +196,7 @@ func storeCase(t *testing.T, run *core.Run, p *pool, name string, rng *rand.Rand
 	}
 	for b := 0; b < blocks; b++ {
 		// speculative execution that is then discarded: must leave no trace in the tree
-		switch rng.Intn(4) {
+		switch rng.Intn(5) {
 		case 0:
 			scratch := map[string][]byte{}
 			for k, v := range model {
@@ -233,6 +233,32 @@ func storeCase(t *testing.T, run *core.Run, p *pool, name string, rng *rand.Rand
 			run.Count("copy_roots", 1)
 			cp.Discard()
 			hist = append(hist, opRec{Op: "root-on-copy-then-discard"})
+		case 2:
+			// the mempool path of the controller: uncommitted work (sets, overwrites, deletes of committed keys) is pending on
+			// the store when the copy is taken; the copy's root must be the commitment of committed + pending state
+			scratch := map[string][]byte{}
+			for k, v := range model {
+				scratch[k] = v
+			}
+			apply(st, scratch, batchSizes[rng.Intn(len(batchSizes))], false)
+			cp, err := st.Copy()
+			if err != nil {
+				t.Fatalf("copy: %v", err)
+			}
+			if rng.Intn(2) == 0 {
+				apply(cp, scratch, batchSizes[rng.Intn(len(batchSizes))], false)
+			}
+			r, err := cp.Root()
+			if err != nil {
+				t.Fatalf("root(copy): %v", err)
+			}
+			if want := refs.CanonicalRoot(scratch, 160); !bytes.Equal(r, want) {
+				run.Violation("root-mismatch path=copy-with-pending-work", name, map[string]any{"history": hist, "got": core.Hex(r), "want": core.Hex(want), "set_size": len(scratch)})
+			}
+			run.Count("copy_with_pending_work_roots", 1)
+			cp.Discard()
+			st.Reset()
+			hist = append(hist, opRec{Op: "pending-work-copy-root-then-reset"})
 		}
 		n := batchSizes[rng.Intn(len(batchSizes))]
 		hist = append(hist, opRec{Op: "batch", N: n})
